@@ -71,6 +71,12 @@ def check_wallet(case, ctx):
         if st_ == "exc":
             ctx.count("non-bool-flag-refused (not judged)")
             w = PaperWallet.from_bip39_seed_bytes(case["seed"], testnet)
+    elif wform == "mnemonic-pw":
+        # from a sentence and a passphrase in composed / compatibility / decomposed Unicode form (the text never names a network)
+        from vlib.ref import bip39 as R39
+        pw = ["caf\u00e9", "\uff50\uff57\u2460", "cafe\u0301", "\ufb01n", "\u00c5ngstr\u00f6m"][case["seed"][0] % 5]
+        w = PaperWallet.from_mnemonic(R39.encode(case["seed"][:16]), pw, testnet) if case["seed"][1] & 1 else \
+            PaperWallet.from_mnemonic(mnemonic=R39.encode(case["seed"][:16]), password=pw, testnet=testnet)
     else:
         w = PaperWallet.from_bip39_seed_bytes(case["seed"], testnet)
     if wform in ("deepcopy", "pickle"):
@@ -248,7 +254,8 @@ def check_cli(case, ctx):
            "from-master-xprv": ["from-master-xprv", rm.xprv(R.TPRV if testnet else R.XPRV)]}[case["cmd"]]
     if case["pw"] and case["cmd"] in ("from-mnemonic", "from-entropy-hex", "new"):
         sub = sub + ["--password", case["pw"]]
-    argv = (["--testnet"] if testnet and case["cmd"] != "from-master-xprv" else []) + (["--paranoia"] if case["paranoia"] else []) \
+    # from-master-xprv: the key's own prefix decides; a --testnet switch given along with it (either key network) changes nothing
+    argv = (["--testnet"] if (testnet and case["cmd"] != "from-master-xprv") or (case["cmd"] == "from-master-xprv" and case.get("stray")) else []) + (["--paranoia"] if case["paranoia"] else []) \
         + ["--account", str(case["account"]), "--interval", "0", "2"] + sub
     r = cli.run_main(argv)
     if r["status"] != 0:
@@ -392,7 +399,7 @@ def clauses():
                    "account": st.one_of(st.sampled_from([0, 1, H - 2]), st.integers(0, H - 2)),
                    "start": st.one_of(st.sampled_from([0, 1, H - 5]), st.integers(0, H - 5)), "rows": st.integers(0, 3),
                    "paths": st.lists(node_paths(), min_size=1, max_size=4),
-                   "wform": st.sampled_from(["plain", "plain", "int-flag", "deepcopy", "pickle"])}),
+                   "wform": st.sampled_from(["plain", "plain", "int-flag", "deepcopy", "pickle", "mnemonic-pw"])}),
                nontrivial=lambda c: c["testnet"] or any(len(p) >= 2 and p[1] in (H + 1, 1) for p in c["paths"]),
                classes=lambda c: ["test" if c["testnet"] else "main", "rows=%d" % c["rows"], "wallet:" + c.get("wform", "plain")],
                n={"quick": 220, "thorough": 8000}, shards={"quick": 16, "thorough": 16}),
@@ -428,7 +435,8 @@ def clauses():
                "network asked for (for from-master-xprv: the key's own)",
                gen=lambda tier: st.fixed_dictionaries({
                    "cmd": st.sampled_from(["from-mnemonic", "from-entropy-hex", "new", "from-bip39-seed", "from-master-xprv"]),
-                   "seed": S.seeds(16, 16), "testnet": st.booleans(), "paranoia": st.booleans(), "pw": st.sampled_from(["", "", "pw", "p w"]),
+                   "seed": S.seeds(16, 16), "testnet": st.booleans(), "paranoia": st.booleans(), "pw": st.sampled_from(["", "", "pw", "p w", "caf\u00e9", "\uff50\uff57", "\ufb01x"]),
+                   "stray": st.booleans(),
                    "account": st.sampled_from([0, 1, 9])}),
                nontrivial=lambda c: c["testnet"], classes=lambda c: [c["cmd"], "pw" if c["pw"] else "no-pw", "test" if c["testnet"] else "main"],
                n={"quick": 160, "thorough": 4000}, shards={"quick": 16, "thorough": 16}),
